@@ -1,5 +1,6 @@
 import Driver.Proto
 import Driver.C20
+import Driver.C07
 import Driver.C16
 import Driver.C17
 import Driver.Mp4
@@ -12,6 +13,7 @@ def dispatch (line : String) : String :=
     let kv := parseKV rest
     match prop with
     | "C20" => Driver.C20.handle kv
+    | "C07" | "C08" => Driver.C07.handle prop kv
     | "C16" => Driver.C16.handle kv
     | "C17" => Driver.C17.handle kv
     | "C01" | "C02" | "C03" | "C04" | "C05" => Driver.Mp4.handle prop kv
